@@ -280,7 +280,8 @@ func c12Child(t *tr.Writer, e *callsEnv, c callsCase) {
 		// compared byte by byte with what the service produces for that request (request XOR 0x5A): a
 		// response buffer handed back while somebody else already writes into it shows only here
 		atomic.StoreInt32(&e.silent, 1)
-		var bad, total int64
+		cl.Timeout = 3 * time.Second
+		var bad, total, failed int64
 		var first atomic.Value
 		var wg sync.WaitGroup
 		for g := 0; g < 8; g++ {
@@ -291,7 +292,12 @@ func c12Child(t *tr.Writer, e *callsEnv, c callsCase) {
 				var prevPayload, prevResp []byte
 				check := func(what string, payload, resp []byte, err error) {
 					atomic.AddInt64(&total, 1)
-					ok := err == nil && len(resp) == len(payload)
+					if err != nil {
+						// "or nothing": a call that fails (a datagram lost under load, say) delivered no bytes
+						atomic.AddInt64(&failed, 1)
+						return
+					}
+					ok := len(resp) == len(payload)
 					for k := 0; ok && k < len(resp); k++ {
 						ok = resp[k] == payload[k]^0x5A
 					}
@@ -303,7 +309,7 @@ func c12Child(t *tr.Writer, e *callsEnv, c callsCase) {
 				for i := 0; i < 40; i++ {
 					n := 4097 + rng.Intn(26000)
 					if c.Kind == "udp" {
-						n = 4097 + rng.Intn(20000)
+						n = 4097 + rng.Intn(8000) // (eight callers' datagrams have to fit the socket buffers)
 					}
 					payload := append([]byte("RAW:"), pattern("random", n-4, c.Seed*1000+int64(g*100+i))...)
 					resp, err := rawRequest(cl, payload)
@@ -321,7 +327,7 @@ func c12Child(t *tr.Writer, e *callsEnv, c callsCase) {
 		}
 		wg.Wait()
 		atomic.StoreInt32(&e.silent, 0)
-		d := fmt.Sprintf("%d of %d responses were not what the service produced for the request", bad, total)
+		d := fmt.Sprintf("%d of %d responses were not what the service produced for the request (%d calls failed)", bad, total, failed)
 		if f := first.Load(); f != nil {
 			d += "; first: " + f.(string)
 		}
